@@ -203,6 +203,63 @@ def set_unwraps(f):
     return out
 
 
+def meth(c, ty, name, trait=None):
+    """method `name` of the impl whose self type's last path segment is exactly `ty` (lib.mir.base_type cuts a
+    path like `TaskState<'_>::with_p3_task_set::ResetTask` at the first `<`, so Crate.method confuses the two)."""
+    out = []
+    for f in c.fns.values():
+        st = f.d.get("self_ty")
+        if st is None or mir.norm(st).split("::")[-1] != ty or not f.npath.endswith("::" + name):
+            continue
+        tr = f.d.get("trait")
+        if (trait is None) != (tr is None) or (trait is not None and not mir.suffix_match(tr, trait)):
+            continue
+        out.append(f)
+    if len(out) != 1:
+        raise mir.AnchorMissing(f"method `{ty}::{name}` (trait {trait}) in crate {c.name}: {len(out)} matches")
+    return out[0]
+
+
+def const_flags(f):
+    """locals whose every definition is a constant assignment (source-level bool flags, drop flags)"""
+    out = set()
+    for l, ds in f.defs.items():
+        if len(ds) >= 2 and all(k == "assign" and rv["k"] == "use" and "c" in rv["o"] and "v" in rv["o"]
+                                for _, _, k, rv in ds):
+            out.add(l)
+    return out
+
+
+def flag_reach(f, starts, stop):
+    """blocks reachable from `starts` without expanding `stop` blocks, pruning switch edges that contradict the
+    constant last assigned on the path to a flag local (path-sensitive only in such flags)"""
+    flags = const_flags(f)
+    seen = set()
+    st = [(b, ()) for b in starts]
+    while st:
+        b, env = st.pop()
+        if (b, env) in seen:
+            continue
+        seen.add((b, env))
+        if b in stop:
+            continue
+        d = dict(env)
+        for s in f.stmts(b):
+            if s["k"] == "=" and not s["p"].get("p") and s["p"]["l"] in flags:
+                d[s["p"]["l"]] = int(s["rv"]["o"]["v"])
+        succ = f.succ[b]
+        t = f.term(b)
+        if t["k"] == "switch":
+            o = f.origin(t["d"])
+            if o.get("kind") == "place" and o.get("local") in d and not o.get("proj"):
+                tg = f.switch_targets(b)
+                succ = [x for x in [tg.get(d[o["local"]], tg["else"])] if x in f.succ[b]]
+        env2 = tuple(sorted(d.items()))
+        for s2 in succ:
+            st.append((s2, env2))
+    return {b for b, _ in seen}
+
+
 def diverges(f, b):
     return not (f.reachable(b) & set(f.returns()))
 
@@ -271,7 +328,7 @@ def one(rep, c, cfg):
                                 c.const("SLEEP_STATE_SLEEPING"))
 
     def executor():
-        outer = c.method("TaskState", "callback")
+        outer = meth(c, "TaskState", "callback")
         inner = [g for g in c.closures_of(outer) if g.calls("Tasks::poll_next")]
         if len(inner) != 1:
             raise mir.AnchorMissing(f"closure of TaskState::callback that polls the tasks: {len(inner)} matches")
@@ -741,9 +798,9 @@ def one(rep, c, cfg):
 
     # ------------------------------------------------------------------ R22.5 destructor under the p3 task scope
     def r5():
-        f = c.method("TaskState", "drop", trait="Drop")
+        f = meth(c, "TaskState", "drop", trait="Drop")
         rep.saw(f)
-        w = c.method("TaskState", "with_p3_task_set")
+        w = meth(c, "TaskState", "with_p3_task_set")
         rep.saw(w)
         cancel = f.call_blocks("cancel_inter_task_stream_read")
         rep.floor("R22.5", f"cancel_inter_task_stream_read call in Drop for TaskState {tag}", len(cancel), 1)
@@ -795,7 +852,7 @@ def one(rep, c, cfg):
                    x.dest.get("l") == 0 and not x.dest.get("p"), "", w.loc(x.bb))
         rep.ob("R22.5", f"with_p3_task_set: the guard is never forgotten {tag}",
                not w.calls(["mem::forget", "ManuallyDrop::new"]), "", w.loc())
-        d = c.method("ResetTask", "drop", trait="Drop")
+        d = meth(c, "ResetTask", "drop", trait="Drop")
         rep.saw(d)
         rs = [x for x in d.calls("cabi::wasip3_task_set")
               if d.origin(x.args[0]).get("kind") == "arg" and ".0" in d.origin(x.args[0]).get("proj", [])]
@@ -844,7 +901,7 @@ def one(rep, c, cfg):
                        "work spawned by the last poll is forgotten", f.loc(b))
             for x in ext:
                 rep.ob("R22.6", f"spawn::Tasks::poll_next: newly spawned work is polled before any return {tag}",
-                       all(f.all_paths_pass(s2, f.returns(), P) for s2 in f.succ[x.bb]),
+                       not (flag_reach(f, f.succ[x.bb], set(P)) & set(f.returns())),
                        "the executor can report Ready/Pending with unpolled spawned futures (no waker registered, "
                        "or exit with work left)", f.loc(x.bb))
             sw = bool_switches_on_call(f, "Vec::is_empty")
